@@ -269,6 +269,9 @@ func (c *Conn) Close() error {
 	if err != nil {
 		return err
 	}
+	// The stream is closed now: later packets for it must be refused like those
+	// for any other unknown session (and must not try to wake up a reader).
+	c.handler.rmStream(c.stanzaWriter.sid)
 	close(c.readReady)
 	return respReadCloser.Close()
 }
